@@ -36,7 +36,19 @@
 (*   HandlerDeviation "gzipdelay": the compressing handler in front of the  *)
 (*                   transport swallows a status that comes without a body; *)
 (*                   "expectwait": the transport waits for 100 Continue     *)
-(*                   before it sends the body of an Expect request          *)
+(*                   before it sends the body of an Expect request;         *)
+(*                   "retryreused": a body-less request that failed on a    *)
+(*                   connection taken from the idle pool is sent once more, *)
+(*                   a timeout included; "bodydeadline": the request gets a *)
+(*                   deadline of dial + response-header timeout which also  *)
+(*                   cuts the copy of the response body                     *)
+(*                                                                         *)
+(* Histories: a request may travel over a NEW connection or over one an     *)
+(* earlier request left in the idle pool (ConnKinds); the response header   *)
+(* may be followed by a body that takes long to arrive.  The response-      *)
+(* header timeout bounds the wait for the header on either kind of          *)
+(* connection, and no option bounds the body: a response whose header came  *)
+(* in time is delivered completely.                                         *)
 (*                                                                         *)
 (* Value ranges: the options keep the meaning of the Go fields they are     *)
 (* documented to configure: a timeout of 0 is "none", proxy.maxconn 0 is    *)
@@ -129,6 +141,21 @@ Served(vals, d, wrap, req) ==
     THEN [o EXCEPT !.within = @ + 1000]
     ELSE o
 
+\* ... nor does the connection the request travels on
+ConnKinds == {"new", "reused"}
+ServedOn(vals, d, req, conn) ==
+    LET o == Outcome(vals, d) IN
+    IF HandlerDeviation = "retryreused" /\ conn = "reused" /\ req \in {"GET", "HEAD"} /\ o.status = 504
+    THEN [o EXCEPT !.within = @ * 2]
+    ELSE o
+\* a response whose header arrives after d and whose body takes another b to arrive
+Delivered(vals, d, b) ==
+    LET o == Outcome(vals, d) IN
+    [status |-> o.status, within |-> o.within,
+     complete |-> ~(HandlerDeviation = "bodydeadline" /\ vals.rht > 0 /\ d + b > vals.dial + vals.rht)]
+\* a body that outlasts dial timeout + response-header timeout together (2x)
+LongBody(c) == 2 * (c.dial + c.rht)
+
 Next == \/ \E c \in Configs : SetConfig(c)
         \/ \E k \in {"default", "insecure"} : NewTransport(k)
         \/ AddTargetTransport
@@ -161,6 +188,18 @@ HandlersTransparent ==
         \A cl \in DelayClasses : \A w \in Wraps : \A r \in ReqKinds :
             LET d == DelayOf(cl, built[n].want.rht) IN
             Served(built[n].vals, d, w, r) = Outcome(built[n].want, d)
+
+ReuseTransparent ==
+    \A n \in DOMAIN built : built[n].want.rht > 0 =>
+        \A cl \in DelayClasses : \A r \in ReqKinds : \A k \in ConnKinds :
+            LET d == DelayOf(cl, built[n].want.rht) IN
+            ServedOn(built[n].vals, d, r, k) = Outcome(built[n].want, d)
+\* ... and a response that began in time is delivered completely, however long its body takes
+BodyNotLimited ==
+    \A n \in DOMAIN built : built[n].want.rht > 0 =>
+        \A b \in {0, LongBody(built[n].want)} :
+            LET r == Delivered(built[n].vals, DelayOf("below", built[n].want.rht), b) IN
+            r.status = 200 /\ r.complete
 
 \* ... no other limit is introduced
 NoOtherLimit == \A n \in DOMAIN built : built[n].extra = NoExtra
